@@ -367,7 +367,15 @@ impl fmt::Display for IterableKind {
         let s = match self {
             IterableKind::Numbers(v) => format!("{:?}", v),
             IterableKind::Integers(v) => format!("{:?}", v),
-            IterableKind::Anys(v) => format!("{:?}", v),
+            // elements of different kinds (e.g. rows [1, 2] and [3, 4.5]): print each element as
+            // source text, the debug form of the vector is not a valid array literal
+            IterableKind::Anys(v) => format!(
+                "[{}]",
+                v.iter()
+                    .map(|p| p.to_string())
+                    .collect::<Vec<_>>()
+                    .join(", ")
+            ),
             IterableKind::PositiveIntegers(v) => format!("{:?}", v),
             IterableKind::Strings(v) => format!("{:?}", v),
             IterableKind::Edges(v) => format!("{:?}", v),
